@@ -342,6 +342,9 @@ func (fc *funcCtx) havoc(st *State, l *Loop) {
 			if ms.VS != "" {
 				ms.Val = st.freshConst("val", fmt.Sprintf("(Array %s %s)", ms.KS, ms.VS))
 			}
+			for i, l := range ms.Leaves {
+				ms.LVals[i] = st.freshConst("mval", fmt.Sprintf("(Array %s %s)", ms.KS, l.sort))
+			}
 			_ = id
 		}
 	}
@@ -579,6 +582,11 @@ func (fc *funcCtx) globalValue(st *State, g *ssa.Global) Value {
 	if _, ok := t.Underlying().(*types.Struct); ok {
 		if sv, ok := fc.e.globalStructConst(st, g); ok {
 			return sv
+		}
+	}
+	if _, isIface := t.Underlying().(*types.Interface); isIface {
+		if fc.e.globalIsConstError(g) {
+			return IfaceV{Nil: "false", Tag: st.freshConst("errtag", SInt)}
 		}
 	}
 	fc.e.note("package-level variable " + g.Name() + " read as arbitrary value")
@@ -1087,6 +1095,14 @@ func (fc *funcCtx) lookup(st *State, x *ssa.Lookup) {
 			found = app("select", ms.Dom, key.T)
 			if ms.VS != "" {
 				val = Sc{fmt.Sprintf("(ite %s (select %s %s) %s)", found, ms.Val, key.T, zeroOfSort(ms.VS)), ms.VS}
+			} else if ms.VT != nil {
+				// present: the stored struct; absent: the zero value
+				stored := fc.e.mapLoadStruct(st, ms, key.T)
+				if mv, ok := mergeValue(found, stored, fc.e.zero(st, ms.VT)); ok {
+					val = mv
+				} else {
+					val = stored
+				}
 			} else {
 				val = fc.e.fresh(st, b.VT, "mapval")
 			}
@@ -1116,6 +1132,10 @@ func (fc *funcCtx) mapUpdate(st *State, x *ssa.MapUpdate) {
 	if ms.VS != "" {
 		v := fc.scalar(st, x.Value)
 		ms.Val = app("store", ms.Val, key.T, v.T)
+	} else if ms.VT != nil {
+		if !ms.storeStruct(key.T, fc.val(st, x.Value)) {
+			fc.abort("map update with a struct value that has unsupported components")
+		}
 	}
 }
 
